@@ -599,6 +599,14 @@ func (k *Kernel) Note(s string) {
 	k.mu.Unlock()
 }
 
+// Annotate adds a line to the decision trace when tracing is on; it never
+// influences the run or its hash.
+func (k *Kernel) Annotate(format string, args ...interface{}) {
+	if k.TraceOn {
+		k.Trace = append(k.Trace, "      | "+fmt.Sprintf(format, args...))
+	}
+}
+
 // TraceHash returns the hash of all decisions taken so far.
 func (k *Kernel) TraceHash() uint64 { return k.hash }
 
